@@ -43,6 +43,7 @@ structure Env (ρ : Type) where
   consts : Consts
   supported : Str → Bool                    -- `is_supported_file(basename)`
   lower : Str → Str                         -- `str.lower`
+  routedBack : Str → Bool                   -- `get_extractor(basename) is read_archive` (router aliases / MIME types)
   /-- `list(get_extractor(basename)(BytesIO(data), path=path))` as far as it gets, and whether it raised -/
   extract : Str → Bytes → Str → List ρ × Bool
 
@@ -96,6 +97,7 @@ def shouldSkip {ρ} (env : Env ρ) (filename basename : Str) : Bool :=
   basename.head? == some 46 || (s "__MACOSX/").isPrefixOf filename
   || !env.supported basename
   || env.consts.nested.any (fun e => e.isSuffixOf (env.lower basename))
+  || env.routedBack basename
 
 /-- `f"{archive_path}!/{filename}" if archive_path else filename` -/
 def fullPath (archivePath : Option Str) (filename : Str) : Str :=
@@ -186,14 +188,15 @@ def readTar {ρ} (env : Env ρ) (ap : Option Str) : List TarMember → List ρ
 /-! ### 7z -/
 
 open S2T.SevenZip in
-/-- the pre-filter of `_extract_from_7z_optimized` -/
-def sevenFilter {ρ} (env : Env ρ) : List FileInfo → List FileInfo
-  | [] => []
-  | f :: rest =>
-    if f.isDirectory then sevenFilter env rest
-    else if shouldSkip env f.filename (baseName f.filename) then sevenFilter env rest
-    else if f.uncompressed > env.consts.maxMemorySize then sevenFilter env rest
-    else f :: sevenFilter env rest
+/-- the pre-filter of `_extract_from_7z_optimized`: the entries to process, each with its index in `list()`
+    (`i` = index of the head of the list) -/
+def sevenFilter {ρ} (env : Env ρ) : List FileInfo → Nat → List (Nat × FileInfo)
+  | [], _ => []
+  | f :: rest, i =>
+    if f.isDirectory then sevenFilter env rest (i + 1)
+    else if shouldSkip env f.filename (baseName f.filename) then sevenFilter env rest (i + 1)
+    else if f.uncompressed > env.consts.maxMemorySize then sevenFilter env rest (i + 1)
+    else (i, f) :: sevenFilter env rest (i + 1)
 
 /-- the temporary directory after `extractall`, as the list of (member name, bytes) written in order;
     reading `os.path.join(temp_dir, filename)` back gives the last write under that name.
@@ -215,19 +218,22 @@ def sevenLoop {ρ} (env : Env ρ) (ap : Option Str) (writes : List (Str × Bytes
     | some b => processEntry env ap f.filename b (baseName f.filename) ++ sevenLoop env ap writes rest
 
 open S2T.SevenZip in
-/-- `_extract_from_7z_optimized` given the reader construction and `extractall` as functions of the file -/
+/-- `_extract_from_7z_optimized` given the reader construction and `extractall(members=…)` as functions of
+    the file; `members` is handed over as the indices of the entries that passed the filters -/
 def read7z {ρ} (env : Env ρ) (ap : Option Str) (file : Bytes)
-    (parse : Bytes → Except Err R) (needsPw : R → Bool) (extract : Bytes → R → Except Err (List (Str × Bytes))) : Out ρ :=
+    (parse : Bytes → Except Err R) (needsPw : R → Bool)
+    (extract : Bytes → R → Option (List Nat) → Except Err (List (Str × Bytes))) : Out ρ :=
   if file.length > env.consts.max7zFileSize then { yields := [], terminal := some .tooLarge }
   else match parse file with
+    | .error (.encrypted7z _) => { yields := [], terminal := some .encrypted }     -- AES-encoded header
     | .error _ => { yields := [], terminal := some .failed }
     | .ok r =>
       if needsPw r then { yields := [], terminal := some .encrypted }
       else
-        let todo := sevenFilter env r.files
-        match extract file r with
+        let todo := sevenFilter env r.files 0
+        match extract file r (some (todo.map (·.1))) with
         | .error _ => { yields := [], terminal := some .failed }
-        | .ok writes => { yields := sevenLoop env ap writes todo }
+        | .ok writes => { yields := sevenLoop env ap writes (todo.map (·.2)) }
 
 /-! ### read_archive -/
 
